@@ -53,6 +53,22 @@ class C08(Prop):
             retries = rng.choice([0, 1, 2, 3, 5])
             evs = [rng.choice(["tick", "tick", "stale", "confirm", "third", "narrow"]) for _ in range(rng.randrange(0, 9))]
             cases.append(self._case(rng, tbl, idx, size, retries, rng.random() < 0.5, evs, "random"))
+        # two calls on the SAME parameter object: the first goes unconfirmed (every request lost), the second asks to revert, or for
+        # a third value, while the controller confirms, reports the first request late, or stays silent
+        for _ in range(80 if tier == "quick" else 2000):
+            tbl, idx, size = rng.choice([x for x in targets if x[2] == 1])
+            v0, v1, v2 = rng.sample(range(1, 250), 3)
+            r1 = rng.choice([1, 2])
+            call1 = [v1, r1, [[0]] * (r1 + 1)]
+            req2 = rng.choice([v0, v2])
+            r2 = rng.choice([1, 2, 3])
+            evs2 = []
+            for _ in range(rng.randrange(0, 5)):
+                e = rng.choice(["tick", "confirm", "late-first", "old"])
+                evs2.append([0] if e == "tick" else [1, [req2 if e == "confirm" else v1 if e == "late-first" else v0, 0, 255]])
+            evs2 += [[0]] * (r2 + 1)
+            cases.append({"kind": "two-calls", "tbl": tbl, "idx": idx, "triple": [v0, 0, 255], "tracking": rng.random() < 0.5,
+                          "calls": [call1, [req2, r2, evs2]], "req": v1, "retries": r1, "events": call1[2], "sub": 0})
         # the call made through Device.set(name, displayed value) on SCALED numbers, the value held before being the raw value that is
         # numerically equal to the displayed value requested (raw 2 held = 0.2 displayed, 2.0 requested = raw 20)
         scaled = [(tbl, idx, d) for tbl, name in enumerate(param_impl.TABLES) if tbl in (0, 1, 2, 3, 4)
@@ -107,6 +123,9 @@ class C08(Prop):
                 "tracking": tracking, "events": events, "sub": rng.choice([0, 1])}
 
     def run_impl(self, c):
+        if c["kind"] == "two-calls":
+            res = vloop.run(param_impl.run_session, c["tbl"], c["idx"], c["triple"], c["calls"], c["tracking"])
+            return [[r[0] for r in res], [r[1] for r in res]]
         if c["kind"] == "frames":
             if "_payloads" not in c:
                 trs = [c["triple"]] + [ev[1] for ev in c["events"] if ev[0] == 1]
@@ -125,11 +144,47 @@ class C08(Prop):
     def _margs(self, c):
         return [[c["tracking"]] * 12, c["triple"], c["req"], c["retries"], c["events"]]
 
+    def _session_model(self, c):
+        fix = lambda r: [[([o[0], bool(o[1])] if o[0] == 2 else o) for o in pt] for pt in r]
+        held, outs, befores = c["triple"], [], []
+        for req, retries, evs in c["calls"]:
+            m = model.call("run_set", [[c["tracking"]] * 12, held, req, retries, evs])
+            outs.append(fix(m[0]))
+            befores.append(held)
+            held = m[1]
+        return [outs, befores]
+
     def model_many(self, cases):
-        res = model.call_many("run_set", [self._margs(c) for c in cases])
-        return [[[[([o[0], bool(o[1])] if o[0] == 2 else o) for o in pt] for pt in r[0]], r[1]] for r in res]
+        single = [c for c in cases if c["kind"] != "two-calls"]
+        res = iter(model.call_many("run_set", [self._margs(c) for c in single]))
+        out = []
+        for c in cases:
+            if c["kind"] == "two-calls":
+                out.append(self._session_model(c))
+            else:
+                r = next(res)
+                out.append([[[([o[0], bool(o[1])] if o[0] == 2 else o) for o in pt] for pt in r[0]], r[1]])
+        return out
 
     def spec_many(self, cases, behaviours):
+        two = [(c, b) for c, b in zip(cases, behaviours) if c["kind"] == "two-calls"]
+        if two:
+            rest = [(c, b) for c, b in zip(cases, behaviours) if c["kind"] != "two-calls"]
+            r_rest = iter(self.spec_many([c for c, _ in rest], [b for _, b in rest])) if rest else iter([])
+            out = []
+            for c, b in zip(cases, behaviours):
+                if c["kind"] != "two-calls":
+                    out.append(next(r_rest))
+                    continue
+                ok = True
+                for (req, retries, evs), outs, before in zip(c["calls"], b[0], b[1]):
+                    if any(isinstance(o[0], str) for pt in outs for o in pt):
+                        ok = False
+                        break
+                    # each call is judged on its own: the value held before it, its request, its history
+                    ok = ok and bool(model.call("P08", [[c["tracking"]] * 12, before, req, retries, evs, outs]))
+                out.append(ok)
+            return out
         args = []
         bad = []
         for c, b in zip(cases, behaviours):
@@ -140,6 +195,8 @@ class C08(Prop):
         return [bool(r) and not x for r, x in zip(res, bad)]
 
     def nontrivial_key(self, c, mb):
+        if c["kind"] == "two-calls":
+            return repr(c)
         if any(o[0] == 0 for pt in mb[0] for o in pt):
             return repr(c)
         return None
